@@ -1,4 +1,5 @@
 import NitroVerif.Lemmas.SourceMap
+import NitroVerif.Props.C20
 /-!
 # C06 — emitted source maps are valid and point at the defining GraphQL tokens
 
@@ -243,5 +244,15 @@ theorem file_remap_imported_counterexample :
     (fileIndicesOpOld 1 2 1)[2]? = some usizeMax ∧ toIsize usizeMax = -1 ∧
     sourceFiles (fileIndicesOpOld 1 2 1) = [0, 1] := by
   decide
+
+/-- `print_source_map_json` writes `sources[i] = relative_path(generated file, source file i)`; the
+    map lies in the generated file's directory, so a consumer resolves the entry against that
+    directory: by C20 (`resolve_relative`) this is the source file's normalised location, and
+    `relative_path` does not panic — for all absolute, non-climbing paths. -/
+theorem sources_resolve (generated source : Paths.P)
+    (hg : Paths.AbsNoClimb generated) (hs : Paths.AbsNoClimb source) :
+    ∃ entry, Paths.relative generated source = some entry ∧
+      Paths.resolve generated entry = Paths.normalize source :=
+  Paths.resolve_relative generated source hg hs
 
 end NitroVerif.SourceMap
